@@ -168,6 +168,9 @@ def run_case(c):
                         if made:
                             views.append(nv)
                             made = False
+                    elif kind == "index":
+                        nv = view[o[2]]
+                        res = ["view", nv._start_address, nv._end_address, len(nv)]
                     elif kind == "tell":
                         res = value(view.tell())
                     elif kind == "len":
